@@ -526,6 +526,10 @@ func init() {
 				}
 				if name == "C15" {
 					mixStores(cfg, r, 0.3)
+					if !cfg.Synthetic && r.Bool(0.4) {
+						// every request travels through babble's real NetworkTransport
+						cfg.Wire = true
+					}
 				}
 				return cfg
 			},
